@@ -10,7 +10,7 @@ class DomainUnit(WeaverUnit):
 
 class P(Property):
     id = "C08"
-    gen_targets = ["Funfit", "WeaverFootprint"]
+    gen_targets = ["Funfit", "WeaverFootprint", "WeaverGlue"]
 
     def units(self, tier):
         return [DomainUnit(("C08",), ops=DOMAIN_OPS + DOMAIN_OPS + RESHAPE_OPS, max_len=8, exhaustive_domain=True, queries=False), CommuteUnit()]
